@@ -301,6 +301,7 @@ fn one_blob(out: &mut Out, rng: &mut Rng, kind: Kind, pt_len: usize, full: bool)
 }
 
 pub fn run(ctx: &Ctx, out: &mut Out) {
+    crate::inproc::install_shard_logger(ctx.shard, out);
     let mut rng = ctx.rng("C14");
     if let Some(r) = &ctx.replay {
         out.case(1, true);
